@@ -53,6 +53,7 @@ type Thread struct {
 	what           string
 	cases          []waitCase
 	completed      int
+	commit         int // select case a parked thread is committed to (the first one that became ready), -1 none
 	recvVal        Value
 	recvOk         bool
 	top            *Frame
@@ -96,7 +97,7 @@ func (t *Thread) tick() {
 // switching
 
 func (r *Run) newThread(name string, lib bool, parent *Thread) *Thread {
-	t := &Thread{id: len(r.threads), run: r, name: name, wake: make(chan struct{}, 1), lib: lib, completed: -1}
+	t := &Thread{id: len(r.threads), run: r, name: name, wake: make(chan struct{}, 1), lib: lib, completed: -1, commit: -1}
 	if parent != nil {
 		// publish, then advance: what the parent does after the go statement is not ordered before the child
 		t.vc = parent.vc.clone()
@@ -223,6 +224,12 @@ func (t *Thread) yield(label string) {
 		return
 	}
 	others := r.enabledAfter(t)
+	if r.e.cfg.AnyOnly {
+		// -anyonly: a running thread is preempted only in favour of an environment thread parked with
+		// verifPauseAny (an application action "at any point"); the remaining budget can still be spent on
+		// the order in which runnable threads are picked when the current one blocks or ends
+		others = others[r.nNormal:]
+	}
 	// -timerpreempt: a pending timer may fire at this very point (computation takes arbitrarily long), and the
 	// goroutine it wakes runs at once; charged to the delay bound like any other preemption
 	timerAlt := 0
@@ -436,9 +443,21 @@ func (t *Thread) chanOp(cases []waitCase, hasDefault bool, label string) (int, V
 		}
 		if len(ready) > 0 {
 			k := 0
-			if len(ready) > 1 {
+			if t.commit >= 0 {
+				// a goroutine parked in select is woken by the first case that fires and takes that one,
+				// whatever else has become ready by the time it runs
+				for j, i := range ready {
+					if i == t.commit {
+						k = j
+					}
+				}
+				if ready[k] != t.commit && len(ready) > 1 {
+					k = r.decide('L', len(ready), "select", 0)
+				}
+			} else if len(ready) > 1 {
 				k = r.decide('L', len(ready), "select", 0)
 			}
+			t.commit = -1
 			idx := ready[k]
 			v, ok := t.execCase(cases[idx])
 			return idx, v, ok
@@ -448,6 +467,7 @@ func (t *Thread) chanOp(cases []waitCase, hasDefault bool, label string) (int, V
 		}
 		t.cases = cases
 		t.completed = -1
+		t.commit = -1
 		t.block(func() bool {
 			if t.completed >= 0 {
 				return true
@@ -561,6 +581,27 @@ func (t *Thread) chanClose(ch *Chan) {
 	ch.closed = true
 	ch.closeVC = t.vc.clone()
 	t.tick()
+	t.run.commitWaiters(ch, false)
+}
+
+// commitWaiters: ch has just become ready on its own (closed, or a value was buffered); threads parked in a
+// select on it that are not yet committed to another case are committed to this one (all of them for a
+// close, the first one for a buffered value).
+func (r *Run) commitWaiters(ch *Chan, onlyFirst bool) {
+	for _, th := range r.threads {
+		if th.state != tBlocked || th.completed >= 0 || th.commit >= 0 || th.cases == nil {
+			continue
+		}
+		for i, c := range th.cases {
+			if c.ch == ch && (ch.closed || !c.send) {
+				th.commit = i
+				break
+			}
+		}
+		if th.commit >= 0 && onlyFirst {
+			return
+		}
+	}
 }
 
 func (t *Thread) selectOp(fr *Frame, in *ssa.Select) Value {
@@ -665,6 +706,7 @@ func (r *Run) advanceClock(by *Thread) {
 	}
 	if len(cand.ch.buf) < cand.ch.cap {
 		cand.ch.buf = append(cand.ch.buf, chanMsg{r.timeValue(r.clock), cand.vc.clone()})
+		r.commitWaiters(cand.ch, true)
 	}
 }
 
